@@ -682,6 +682,11 @@ impl Evidence {
                     st.evaluations
                 ));
             }
+            for n in &st.notes {
+                if n.contains("aborted") {
+                    self.inconclusive.push(format!("sub {}: {}", st.name, n));
+                }
+            }
             violations.append(&mut st.violations);
             subs_json.push(json!({
                 "sub": st.name,
